@@ -149,6 +149,54 @@ func resolveAnchors(p *Prog) *Anchors {
 			}
 		}
 	}
+	if (a.DBCache == nil || a.DBAsyncw == nil) && a.ObjectStore != nil {
+		// renamed: the pending store is the store field on which the flush method (the store method taking the handle)
+		// is called; the cache is the other store field
+		var stores []*types.Var
+		if s := structOf(a.DB); s != nil {
+			for i := 0; i < s.NumFields(); i++ {
+				if named(s.Field(i).Type()) == a.ObjectStore {
+					stores = append(stores, s.Field(i))
+				}
+			}
+		}
+		flushed := map[*types.Var]bool{}
+		for _, fn := range p.Funcs {
+			for _, b := range fn.Blocks {
+				for _, in := range b.Instrs {
+					c, ok := in.(ssa.CallInstruction)
+					if !ok {
+						continue
+					}
+					g := c.Common().StaticCallee()
+					if g == nil || g.Signature.Recv() == nil || named(g.Signature.Recv().Type()) != a.ObjectStore || len(c.Common().Args) == 0 {
+						continue
+					}
+					takesDB := false
+					for i := 0; i < g.Signature.Params().Len(); i++ {
+						if named(g.Signature.Params().At(i).Type()) == a.DB {
+							takesDB = true
+						}
+					}
+					if !takesDB {
+						continue
+					}
+					if n, f, _ := loadedField(c.Common().Args[0]); n == a.DB && f != nil {
+						flushed[f] = true
+					}
+				}
+			}
+		}
+		if len(stores) == 2 && len(flushed) == 1 {
+			for _, f := range stores {
+				if flushed[f] {
+					a.DBAsyncw = f
+				} else {
+					a.DBCache = f
+				}
+			}
+		}
+	}
 	for role, v := range map[string]*types.Var{"DB.lock": a.DBLock, "DB.schemas": a.DBSchemas, "DB.cache": a.DBCache, "DB.asyncw": a.DBAsyncw, "DB.ctx": a.DBCtx, "DB.cancel": a.DBCancel, "DB.root": a.DBRoot} {
 		if v == nil {
 			a.miss(role)
@@ -358,12 +406,110 @@ func resolveAnchors(p *Prog) *Anchors {
 		a.miss("method " + n.Obj().Name() + "." + name)
 		return nil
 	}
-	a.MustCache = meth(a.Schema, "mustCache")
-	a.AsyncEnabled = meth(a.Schema, "asyncWritesEnabled")
+	// the two caching predicates: by name, and when renamed by shape (Schema methods `func() bool`; the async predicate
+	// reads only the async settings, the caching predicate reads the Cache flag and consults the async predicate)
+	quiet := func(n *types.Named, name string) *types.Func {
+		if n == nil {
+			return nil
+		}
+		for i := 0; i < n.NumMethods(); i++ {
+			if n.Method(i).Name() == name {
+				return n.Method(i)
+			}
+		}
+		return nil
+	}
+	_ = meth
+	a.MustCache = quiet(a.Schema, "mustCache")
+	a.AsyncEnabled = quiet(a.Schema, "asyncWritesEnabled")
+	if a.MustCache == nil || a.AsyncEnabled == nil {
+		var readsAsyncOnly, readsCache []*types.Func
+		for _, fn := range p.Funcs {
+			if fn.Signature.Recv() == nil || named(fn.Signature.Recv().Type()) != a.Schema || fn.Parent() != nil {
+				continue
+			}
+			if fn.Signature.Params().Len() != 0 || fn.Signature.Results().Len() != 1 {
+				continue
+			}
+			if b, ok := fn.Signature.Results().At(0).Type().Underlying().(*types.Basic); !ok || b.Kind() != types.Bool {
+				continue
+			}
+			rc, ra, other := false, false, false
+			for _, b := range fn.Blocks {
+				for _, in := range b.Instrs {
+					if fa, ok := in.(*ssa.FieldAddr); ok {
+						if _, f, _ := fieldOf(fa); f != nil {
+							switch {
+							case f == a.SchCache:
+								rc = true
+							case f == a.SchAsync:
+								ra = true
+							default:
+								if n, _, _ := fieldOf(fa); n == a.Schema {
+									other = true
+								}
+							}
+						}
+					}
+				}
+			}
+			fo, _ := fn.Object().(*types.Func)
+			if fo == nil || other {
+				continue
+			}
+			if rc {
+				readsCache = append(readsCache, fo)
+			} else if ra {
+				readsAsyncOnly = append(readsAsyncOnly, fo)
+			}
+		}
+		if a.AsyncEnabled == nil && len(readsAsyncOnly) == 1 {
+			a.AsyncEnabled = readsAsyncOnly[0]
+		}
+		if a.MustCache == nil && len(readsCache) == 1 {
+			a.MustCache = readsCache[0]
+		}
+	}
+	if a.MustCache == nil {
+		a.miss("method Schema.mustCache (caching predicate)")
+	}
+	if a.AsyncEnabled == nil {
+		a.miss("method Schema.asyncWritesEnabled (async predicate)")
+	}
+	// the regular-file test: by name, else the only package function (string) bool that stats its argument and asks IsRegular
 	if f, ok := sc.Lookup("isFileAndExist").(*types.Func); ok {
 		a.IsFileAndExist = f
 	} else {
-		a.miss("func isFileAndExist")
+		var cands []*types.Func
+		for _, fn := range p.Funcs {
+			if fn.Signature.Recv() != nil || fn.Parent() != nil || fn.Signature.Params().Len() != 1 || fn.Signature.Results().Len() != 1 {
+				continue
+			}
+			if b, ok := fn.Signature.Results().At(0).Type().Underlying().(*types.Basic); !ok || b.Kind() != types.Bool {
+				continue
+			}
+			stat, reg := false, false
+			for _, b := range fn.Blocks {
+				for _, in := range b.Instrs {
+					if c, ok := in.(*ssa.Call); ok {
+						if calleeIs(&c.Call, "os", "Stat") {
+							stat = true
+						}
+						if g := c.Call.StaticCallee(); g != nil && g.Name() == "IsRegular" {
+							reg = true
+						}
+					}
+				}
+			}
+			if fo, _ := fn.Object().(*types.Func); fo != nil && stat && reg {
+				cands = append(cands, fo)
+			}
+		}
+		if len(cands) == 1 {
+			a.IsFileAndExist = cands[0]
+		} else {
+			a.miss("func isFileAndExist (regular-file test)")
+		}
 	}
 	return a
 }
